@@ -315,3 +315,26 @@ func clauseBuilds(info *types.Info, cc *ast.CaseClause, name string) bool {
 }
 
 func sortStrings(s []string) { sort.Strings(s) }
+
+// assignedFrom: struct fields read in the right-hand sides of the assignments to the local
+// variable named name inside fd.
+func assignedFrom(info *types.Info, fd *ast.FuncDecl, name string) []*types.Var {
+	var out []*types.Var
+	ast.Inspect(fd.Body, func(n ast.Node) bool {
+		as, ok := n.(*ast.AssignStmt)
+		if !ok {
+			return true
+		}
+		for i, l := range as.Lhs {
+			if id, ok := l.(*ast.Ident); ok && id.Name == name {
+				rhs := as.Rhs[0]
+				if len(as.Rhs) == len(as.Lhs) {
+					rhs = as.Rhs[i]
+				}
+				out = append(out, fieldsIn(info, rhs)...)
+			}
+		}
+		return true
+	})
+	return out
+}
